@@ -308,6 +308,12 @@ def classify(viol, wl, k):
     e0 = k.get('started_e0')
     if e0 is None or k['started'] is None:
         return viol
+    # only a kill inside a BLOCK qualifies: a user block of the workload, or a method that is a block itself
+    unit = [u for u in units_of_program(wl['program']) if u[0] <= k['started'] <= u[1]]
+    is_block = bool(unit) and unit[0][0] != unit[0][1]
+    lib_block = (wl['kind'], wl['program'][k['started']]['op']) in (('index', 'popitem'),)
+    if not (is_block or lib_block):
+        return viol
     ev = k['events'][e0:] if k.get('started_depth', 0) == 0 else None
     # events of the interrupted unit: from the outermost BEGIN on
     evs = k['events']
@@ -508,7 +514,7 @@ def run(ctx, big=False):
     deadline = t0 + (210 if ctx.quick and not big else (420 if ctx.quick else 1300))
     if not thorough:
         rng = random.Random(ctx.seed * 7919 + 7)
-        must = [w for w in wls if w['name'] in ('cache:set-replace:file', 'cache:pop:file', 'cache:set-replace:file:block', 'index:popitem:file',
+        must = [w for w in wls if w['name'] in ('cache:set-replace:file', 'cache:pop:file', 'cache:set-replace:file:block', 'index:popitem-first:file',
                                                 'cache:delete:file', 'deque:popleft:file', 'cache:add-new:file')]
         rest = [w for w in wls if w not in must and 'pages' not in w['name']]
         rng.shuffle(rest)
